@@ -308,10 +308,16 @@ func checkC08(c *Ctx, r *Report) {
 			for _, b := range fn.Blocks {
 				for _, in := range b.Instrs {
 					if ret, ok := in.(*ssa.Return); ok && len(ret.Results) == 2 && !alwaysNil(ret.Results[1]) {
-						if res := checkGuarded(m, fn, ret, g); res.OK {
-							if reach, _, _ := search(SearchSpec{Start: Loc{fn.Blocks[0], 0}, Target: func(x ssa.Instruction) bool { return x == in },
-								Blocker: func(x ssa.Instruction) bool { return x == ssa.Instruction(up) }}); reach {
-								hasReturn = true
+						for _, site := range returnSites(ret, 1) {
+							if alwaysNil(site.Val) {
+								continue
+							}
+							at := site.At
+							if res := checkGuarded(m, fn, at, g); res.OK {
+								if reach, _, _ := search(SearchSpec{Start: Loc{fn.Blocks[0], 0}, Target: func(x ssa.Instruction) bool { return x == at },
+									Blocker: func(x ssa.Instruction) bool { return x == ssa.Instruction(up) }}); reach {
+									hasReturn = true
+								}
 							}
 						}
 					}
